@@ -472,16 +472,11 @@ def _flat_atoms(p):
 def _atoms_in_key(a):
     out = []
     if isinstance(a, tuple):
+        if a and a[0] == "phi" and len(a) == 2 and isinstance(a[1], int):
+            out.append(a)
         for x in a:
             if isinstance(x, tuple):
-                if x and x[0] == "phi" and len(x) == 2 and isinstance(x[1], int):
-                    out.append(x)
                 out += _atoms_in_key(x)
-            elif isinstance(x, str) and x.startswith("('phi'"):
-                try:
-                    out.append(eval(x))  # atom reprs produced by Poly.key(); tuple literal of ints/strs only
-                except Exception:  # noqa: BLE001
-                    pass
     return out
 
 
@@ -558,3 +553,437 @@ def _row_direction(ctx, rid, f, fn, y_next_def, site):
 def _in_inner_loop(fn, block, inner_next_block):
     """block belongs to the natural loop headed by the inner loop's next() block"""
     return block in fn.natural_loop(inner_next_block)
+
+
+# ---------------------------------------------------------------------------
+# C09.R2 the two-stage scan
+# ---------------------------------------------------------------------------
+
+def _scan_shape(fn, pred_names):
+    """recognise `for &c in input.iter().skip(i) { if !pred(c) { return X } } Y`:
+    returns dict(pred, fail=origin description, done=origin description, skip=canon, source_ok) or None"""
+    rets = []
+    for b in fn.blocks:
+        if b["cleanup"]:
+            continue
+        for i, st in enumerate(b["stmts"]):
+            if st["k"] == "assign" and st["p"] == {"l": 0, "proj": []}:
+                rets.append(((b["id"], i), st["rv"], None))
+        t = b["term"]
+        if t and t["k"] == "call" and t["dest"] == {"l": 0, "proj": []}:
+            rets.append(((b["id"], len(b["stmts"])), None, t))
+    nexts = [c for c in fn.calls() if (c.name or "").endswith("::next")]
+    if len(nexts) != 1 or len(rets) != 2:
+        return None
+    nx = nexts[0]
+    ndef = [d for d in fn.defs()[0] if d.kind == "calldest" and d.point == nx.point][0]
+    kind = loop_kind2(fn, ndef.id)
+    out = {"iter": None, "skip": None}
+    # iterator = skip(iter(input), n) | iter(input)
+    d = def_of(fn, ndef.id)
+    it = fn.origins(d.call["args"][0], d.point)
+    src = fn.origins({"k": "copy", "p": {"l": it[0].info.rv["p"]["l"], "proj": []}}, d.point, hide_weak=True) if len(it) == 1 and it[0].kind == "ref" else []
+    chain = []
+    cur = src[0] if len(src) == 1 and src[0].kind == "call" else None
+    while cur is not None and len(chain) < 6:
+        t = cur.info.call
+        nm = (t.get("callee") or t.get("declared") or "").split("::")[-1]
+        chain.append((nm, [fn.canon(a, cur.point) for a in t["args"][1:]], fn.canon(t["args"][0], cur.point)))
+        a = fn.origins(t["args"][0], cur.point, hide_weak=True)
+        cur = a[0] if len(a) == 1 and a[0].kind == "call" else None
+    out["chain"] = [c[0] for c in chain]
+    out["skip"] = next((c[1][0] for c in chain if c[0] == "skip"), ("K", 0, "usize"))
+    out["source"] = chain[-1][2] if chain else None
+    _ = kind
+    for pt, rv, call in rets:
+        sg = fn.switch_guards(pt[0])
+        bg = fn.guards_of(pt[0])
+        exhausted = any(cd[0] == "discr" and cd[1] == ("def", ndef.id) and how == ("eq", 0) for cd, how, s in sg)
+        predfail = None
+        for cd, pol, s in bg:
+            if cd[0] == "def" and pol is False:
+                nm = call_name_of_def(fn, cd[1])
+                if nm in pred_names:
+                    pd = def_of(fn, cd[1])
+                    arg = unname(strip_refs(fn.canon(pd.call["args"][0], pd.point)))
+                    elem = ("field", ("downcast", ("def", ndef.id), "Some"), 0)
+                    if arg == elem or strip_refs(arg) == elem or arg == ("deref", elem):
+                        predfail = nm
+        val = None
+        if rv is not None and rv["k"] == "agg":
+            val = ("variant", rv.get("variant"))
+        elif call is not None:
+            val = ("call", call.get("callee"), [fn.canon(a, pt) for a in call["args"]])
+        if exhausted and not predfail:
+            out["done"] = val
+        elif predfail:
+            out["fail"] = val
+            out["pred"] = predfail
+    return out if "done" in out and "fail" in out else None
+
+
+def c09_r2(ctx, f):
+    rid = "C09.R2"
+    ctx.rule(rid, "two-stage scan: all digits -> Numeric; else all alphanumeric -> Alphanumeric; else Byte; every byte inspected")
+    be = anchor_fn(ctx, rid, f, "encode::best_encoding", ["&[u8]"], "encode::Mode")
+    if not be:
+        return
+    ro = [o for rp in ret_points(be) for o in be.origins({"k": "copy", "p": {"l": 0, "proj": []}}, rp)]
+    if not (len(ro) == 1 and ro[0].kind == "call" and ro[0].callee() in f.fns):
+        ctx.abstain(rid, "best_encoding is not a single call to a scan function", where_fn(be))
+        return
+    first = ro[0].callee()
+    a = [be.canon(x, ro[0].point) for x in ro[0].info.call["args"]]
+    ctx.check(rid, strip_refs(a[0]) == ("param", 1) and (len(a) < 2 or K(a[1]) == 0), be.path + "/start", where_fn(be), be.path, "first scan",
+              "the scan does not start at byte 0 of the input", found=[expr_str(x, be) for x in a], sample="%s(input, 0)" % first.split("::")[-1])
+    s1 = f.fn(first)
+    ctx.analysed(s1)
+    sh1 = _scan_shape(s1, {"core::num::<impl u8>::is_ascii_digit"})
+    if not sh1:
+        ctx.abstain(rid, "first scan not in the recognised shape (loop with early return on a failed byte test)", where_fn(s1))
+        return
+    ok1 = sh1["done"] == ("variant", "Numeric") and sh1["pred"] == "core::num::<impl u8>::is_ascii_digit" and sh1["fail"][0] == "call"
+    ctx.check(rid, ok1, s1.path + "/numeric-stage", where_fn(s1), s1.path, "numeric stage",
+              "the first stage does not return Numeric exactly when every byte is an ASCII digit, deferring to the second stage otherwise",
+              found={k: str(v)[:80] for k, v in sh1.items()}, sample="all digits -> Numeric, else second stage")
+    ctx.check(rid, sh1["chain"][-1:] == ["iter"] and strip_refs(sh1["source"]) == ("param", 1) and sh1["skip"] in (("param", 2), ("K", 0, "usize")),
+              s1.path + "/covers-input", where_fn(s1), s1.path, "bytes scanned", "the first stage does not scan the input from the given start",
+              found=sh1["chain"], sample="input.iter().skip(i)")
+    if not ok1:
+        return
+    second = sh1["fail"][1]
+    args2 = sh1["fail"][2]
+    s2 = f.fn(second) if second else None
+    if not s2:
+        ctx.abstain(rid, "second stage is not a crate function", where_fn(s1))
+        return
+    ctx.analysed(s2)
+    # second stage restarts at (or before) the first stage's start, on the same input
+    ctx.check(rid, strip_refs(args2[0]) == ("param", 1) and (len(args2) < 2 or args2[1] == ("param", 2) or K(args2[1]) == 0), s1.path + "/second-start",
+              where_fn(s1), s1.path, "hand-over to the second stage",
+              "the second stage starts later than the first stage did (bytes already accepted as digits are alphanumeric, but bytes before the "
+              "start would be skipped) or scans another slice", found=[expr_str(x, s1) for x in args2], sample="second stage scans from the same start")
+    sh2 = _scan_shape(s2, {"encode::is_qr_alphanumeric"})
+    if not sh2:
+        ctx.abstain(rid, "second scan not in the recognised shape", where_fn(s2))
+        return
+    ok2 = sh2["done"] == ("variant", "Alphanumeric") and sh2["fail"] == ("variant", "Byte") and sh2["pred"] == "encode::is_qr_alphanumeric"
+    ctx.check(rid, ok2, s2.path + "/alnum-stage", where_fn(s2), s2.path, "alphanumeric stage",
+              "the second stage does not return Alphanumeric exactly when every byte is in the 45-character set and Byte otherwise",
+              found={k: str(v)[:80] for k, v in sh2.items()}, sample="all alphanumeric -> Alphanumeric, else Byte")
+    ctx.check(rid, sh2["chain"][-1:] == ["iter"] and strip_refs(sh2["source"]) == ("param", 1) and sh2["skip"] in (("param", 2), ("K", 0, "usize")),
+              s2.path + "/covers-input", where_fn(s2), s2.path, "bytes scanned", "the second stage does not scan the input from the given start",
+              found=sh2["chain"], sample="input.iter().skip(i)")
+
+
+# ---------------------------------------------------------------------------
+# C11.R6 scorer constants
+# ---------------------------------------------------------------------------
+
+def c11_r6(ctx, f):
+    rid = "C11.R6"
+    ctx.rule(rid, "scorer constants: runs >= 5 score N-2, 40 per 1011101 window of 7, 3 per 2x2 block, ratio = dark*100/(n*n)")
+    ln = anchor_fn(ctx, rid, f, "score::line")
+    if ln:
+        consts = _int_consts(ln)
+        # run threshold and bonus
+        thr = [K(c[3]) for b in range(ln.n) if ln.live[b] and ln.bool_test(b) for c in [ln.canon(ln.bool_test(b)[0], ln.bool_test(b)[3])]
+               if c[0] == "bin" and c[1] in ("Ge", "Gt", "Lt", "Le") and K(c[3]) is not None and c[2][0] == "phi"]
+        ctx.check(rid, thr and set(thr) <= {5, 7} and 5 in thr, ln.path + "/run-threshold", where_fn(ln), ln.path, "run threshold",
+                  "a run is not penalised from 5 equal modules on", expected="count >= 5", found=thr, sample="count >= 5 at %d sites" % thr.count(5))
+        subs = set()
+        for b in ln.blocks:
+            if b["cleanup"]:
+                continue
+            for i, st in enumerate(b["stmts"]):
+                if st["k"] == "assign" and st["rv"]["k"] == "bin" and st["rv"]["op"].startswith("Sub"):
+                    e = ln.canon_rv(st["rv"], (b["id"], i), 0, None)
+                    if K(e[3]) is not None and e[2][0] == "phi":
+                        subs.add(K(e[3]))
+        ctx.check(rid, subs == {2}, ln.path + "/run-bonus", where_fn(ln), ln.path, "run penalty", "a run of N modules does not score N-2",
+                  expected="count - 2", found=sorted(subs), sample="line_score += count - 2")
+        ctx.check(rid, 40 in consts and 0b1011101 in consts and 0b1111111 in consts, ln.path + "/pattern", where_fn(ln), ln.path, "finder-like pattern",
+                  "the 1011101 window (7 modules, 40 points) constants are not present", found=sorted(c for c in consts if c >= 7)[:8],
+                  sample="pattern 0b1011101 within mask 0b1111111 scores 40")
+        pl = f.const("score::line::PATTERN_LEN")
+        ctx.check(rid, pl == 7 or pl is None, ln.path + "/pattern-len", where_fn(ln), ln.path, "pattern length", "pattern window is not 7 modules", found=pl,
+                  sample="PATTERN_LEN = 7")
+    sq = anchor_fn(ctx, rid, f, "score::matrix_score_squares")
+    if sq:
+        consts = _int_consts(sq)
+        adds = set()
+        for b in sq.blocks:
+            if b["cleanup"]:
+                continue
+            for i, st in enumerate(b["stmts"]):
+                if st["k"] == "assign" and st["rv"]["k"] == "bin" and st["rv"]["op"].startswith("Add"):
+                    e = sq.canon_rv(st["rv"], (b["id"], i), 0, None)
+                    if K(e[3]) is not None and e[2][0] == "phi" and sq.locals[e[2][1]]["ty"] == "u32":
+                        adds.add(K(e[3]))
+        ctx.check(rid, adds == {3}, sq.path + "/block-score", where_fn(sq), sq.path, "2x2 block penalty", "a uniform 2x2 block does not score 3",
+                  expected=3, found=sorted(adds), sample="square_score += 3")
+        ctx.check(rid, 0b1111 in consts and 0 in consts, sq.path + "/uniform", where_fn(sq), sq.path, "uniform test",
+                  "the block is not tested against all-dark (0b1111) and all-light (0)", sample="buffer == 0b1111 || buffer == 0")
+    dm = anchor_fn(ctx, rid, f, "score::dark_module_score")
+    if dm:
+        # percent = dark*100/(n*n) indexing PERCENT_SCORE
+        idx = None
+        for b in dm.blocks:
+            if b["cleanup"]:
+                continue
+            for i, st in enumerate(b["stmts"]):
+                if st["k"] == "assign" and st["rv"]["k"] == "use" and st["rv"]["op"]["k"] in ("copy", "move"):
+                    p = st["rv"]["op"]["p"]
+                    ix = [e for e in p["proj"] if isinstance(e, dict) and "idx" in e]
+                    base = dm.single_def(p["l"], (b["id"], i))
+                    if ix and base is not None and base.rv is not None and base.rv["k"] == "use" and base.rv["op"].get("item") == "hardcode::PERCENT_SCORE":
+                        idx = dm.canon_local(ix[0]["idx"], (b["id"], i))
+
+        def ren(x):
+            u = unname(x)
+            if u[0] == "field" and "size" in repr(x) and u[2] == 1:
+                return "n"
+            if u[0] == "def":
+                nm = call_name_of_def(dm, u[1]) or ""
+                if nm.endswith("::count"):
+                    return "dark"
+            return None
+        if idx is None:
+            ctx.abstain(rid, "PERCENT_SCORE lookup not found in dark_module_score", where_fn(dm))
+        else:
+            got = poly.normalise(idx, ren)
+            exp = poly.op("Div", A("dark") * C(100), A("n") * A("n"))
+            ctx.check(rid, got == exp, dm.path + "/percent", where_fn(dm), dm.path, "dark percentage",
+                      "the table is not indexed by floor(100 * dark / (n*n))", expected=exp.show(), found=got.show(), sample="percent = dark*100/(n*n)")
+        # counted over data[..n*n] with value() == DARK
+        cl = [st["rv"]["path"] for b in dm.blocks if not b["cleanup"] for st in b["stmts"] if st["k"] == "assign" and st["rv"]["k"] == "agg" and st["rv"].get("agg") == "closure"]
+        okc = False
+        if len(cl) == 1:
+            body = f.fn(cl[0])
+            e = body.canon({"k": "copy", "p": {"l": 0, "proj": []}}, ret_points(body)[0])
+            okc = e[0] == "bin" and e[1] == "Eq" and any(x[0] == "call" and x[1] == "module::Module::value" for x in subexprs(e)) and any(
+                x[0] == "K" and x[1] is True for x in subexprs(e))
+        ctx.check(rid, okc, dm.path + "/counts-dark", where_fn(dm), dm.path, "counted modules", "the ratio does not count modules whose value is dark",
+                  sample="filter(|m| m.value() == DARK).count()")
+
+
+def _int_consts(fn):
+    out = set()
+    for b in fn.blocks:
+        if b["cleanup"]:
+            continue
+        for st in b["stmts"]:
+            if st["k"] != "assign":
+                continue
+            rv = st["rv"]
+            ops = []
+            if rv["k"] in ("use", "cast", "repeat"):
+                ops = [rv["op"]]
+            elif rv["k"] == "bin":
+                ops = [rv["a"], rv["b"]]
+            elif rv["k"] == "un":
+                ops = [rv["a"]]
+            for o in ops:
+                if isinstance(o, dict) and o.get("k") == "const" and isinstance(o.get("val"), int) and not isinstance(o.get("val"), bool):
+                    out.add(o["val"])
+    return out
+
+
+# ---------------------------------------------------------------------------
+# C10.R1 explicit panic sites reachable from build are accounted for
+# ---------------------------------------------------------------------------
+
+ACCOUNTED = {
+    # (function, callee last segment) -> (how many sites, what discharges it)
+    ("<module::ModuleType as std::convert::From<u8>>::from", "panic"): (1, "C15.T1: module_type() folds without diverging on all 16 constructible modules; set/toggle change bit 0 only"),
+    ("compact::CompactQR::fill", "assert_failed"): (1, "C06.R1 + C06.T3: pad_to_8 dominates fill and pushes (8 - len%8)%8 bits (debug assertion only)"),
+    ("encode::ascii_to_alphanumeric", "panic_fmt"): (1, "C09.T1/T2/R2: reached only with bytes of the 45-character set (automatic mode) or a forced mode whose alphabet contains the input"),
+    ("encode::ascii_to_digit", "panic_fmt"): (1, "C09.R2: reached only with ASCII digits (automatic mode) or a forced mode whose alphabet contains the input"),
+    ("encode::encode_alphanumeric", "unwrap"): (1, "C10.R1 guard: last().unwrap() only under len - len%2 != len, i.e. a non-empty input"),
+    ("encode::encode_numeric", "panic_fmt"): (1, "C10.R1 guard: unreachable!() arm only after the early return for len%3 == 0"),
+    ("placement::place_on_matrix_data", "assert_failed"): (1, "C15.T2 + C15.R1: data-typed modules number 8*max_bytes + missing_bits (debug assertion only)"),
+    ("version::Version::from_n", "panic_fmt"): (1, "C03.T1: from_n is total on the 40 sizes Version::size produces"),
+}
+
+
+def c10_r1(ctx, f):
+    from .rules_encode import panic_inventory
+    rid = "C10.R1"
+    ctx.rule(rid, "every explicit panic site reachable from build is accounted for by a discharging precondition")
+    fns, sites = panic_inventory(ctx, f, ["qr::QRBuilder::build"], "build")
+    seen = {}
+    for s in sites:
+        key = (s["fn"], s["callee"].split("::")[-1])
+        seen[key] = seen.get(key, 0) + 1
+    for key, n in sorted(seen.items()):
+        acc = ACCOUNTED.get(key)
+        ok = acc is not None and n <= acc[0]
+        line = [s["line"] for s in sites if (s["fn"], s["callee"].split("::")[-1]) == key][0]
+        ctx.check(rid, ok, "%s/%s" % key, "%s:%s" % (f.fns[key[0]]["file"], line), key[0], "%s x%d" % (key[1], n),
+                  "an explicit panic/unwrap is reachable from QRBuilder::build and no precondition is known that rules it out: "
+                  "building could panic instead of returning Ok or a documented Err",
+                  expected="accounted panic sites only", found="%d site(s)" % n, sample="%s %s: %s" % (key[0], key[1], acc[1][:70] if acc else "?"))
+    # structural guards of the two encoder-internal sites
+    ea = f.fn("encode::encode_alphanumeric")
+    if ea:
+        for c in ea.calls("std::option::Option::<T>::unwrap"):
+            pin = ea.params_of_type("&[u8]")
+
+            def ren(x):
+                if x[0] == "call" and x[1] == "len" and contains(x, ("param", pin[0])):
+                    return "len"
+                return None
+            ok = False
+            for cd, pol, s in ea.guards_of(c.block):
+                if cd[0] == "bin" and cd[1] in ("Ne", "Eq") and (cd[1] == "Ne") == pol:
+                    a, b = poly.normalise(cd[2], ren), poly.normalise(cd[3], ren)
+                    ln = A("len")
+                    if {a, b} == {ln, ln - poly.op("Rem", ln, C(2))}:
+                        ok = True
+            src = ea.canon(c.args[0], c.point)
+            ok = ok and src[0] == "def" and (call_name_of_def(ea, src[1]) or "").endswith("::last")
+            ctx.check(rid, ok, ea.path + "/last-unwrap-guard", c.where(), ea.path, "input.last().unwrap()",
+                      "last().unwrap() is not confined to inputs of odd (hence non-zero) length", sample="unwrap only when len - len%2 != len")
+    en = f.fn("encode::encode_numeric")
+    if en:
+        pin = en.params_of_type("&[u8]")
+        for c in en.calls():
+            if (c.name or "").startswith("core::panicking"):
+                # dominated by the false edge of `len - len%3 == len`
+                def ren(x):
+                    if x[0] == "call" and x[1] == "len" and contains(x, ("param", pin[0])):
+                        return "len"
+                    return None
+                ok = False
+                for cd, pol, s in en.guards_of(c.block):
+                    if cd[0] == "bin" and cd[1] in ("Ne", "Eq") and (cd[1] == "Ne") == pol:
+                        a, b = poly.normalise(cd[2], ren), poly.normalise(cd[3], ren)
+                        ln = A("len")
+                        if {a, b} == {ln, ln - poly.op("Rem", ln, C(3))}:
+                            ok = True
+                sg = [(cd, how) for cd, how, s in en.switch_guards(c.block) if cd[0] == "bin" and cd[1] == "Rem" and K(cd[3]) == 3]
+                ok = ok and any(how[0] == "other" and set(how[1]) == {1, 2} for cd, how in sg)
+                ctx.check(rid, ok, en.path + "/unreachable-guard", c.where(), en.path, "unreachable!() arm",
+                          "the unreachable!() arm is not confined to residue 0 after the early return for multiples of 3",
+                          sample="unreachable arm only for i%3 == 0, excluded by the early return")
+    return seen
+
+
+# ---------------------------------------------------------------------------
+# C07.R2 one long-division step
+# ---------------------------------------------------------------------------
+
+def c07_r2(ctx, f):
+    rid = "C07.R2"
+    ctx.rule(rid, "division: dividend placed at 256-len(f)-len(g); step rem[i+j] ^= exp[(g[j] + log(rem[i])) mod 255] for j < len(g), i over the dividend")
+    fn = anchor_fn(ctx, rid, f, "polynomials::division", ["&[u8]", "&[u8]"], None) or f.fn("polynomials::division")
+    if not fn:
+        return
+    loops = {}
+
+    def ren(x):
+        u = unname(x)
+        if x[0] == "call" and x[1] == "len" and strip_refs(x[2][0]) == ("param", 1):
+            return "f"
+        if x[0] == "call" and x[1] == "len" and strip_refs(x[2][0]) == ("param", 2):
+            return "g"
+        if u[0] == "un" and u[1] == "PtrMetadata" and strip_refs(u[2]) == ("param", 2):
+            return "g"
+        if x[0] == "K" and isinstance(x[1], tuple) and len(x[1]) == 256:
+            v = list(x[1])
+            if v[:255] == ref.GF_EXP:
+                return "EXP"
+            if v[1:] == ref.GF_LOG[1:]:
+                return "LOG"
+            return "TABLE?"
+        lp = loop_payload(fn, x)
+        if lp is not None:
+            loops[lp] = loop_kind2(fn, lp)
+            return ("lv", lp)
+        if u[0] == "phi" and fn.locals[u[1]]["ty"].startswith("[u8; "):
+            return "rem"
+        if u == ("param", 2):
+            return "gen"
+        if u == ("deref", ("param", 2)):
+            return "gen"
+        return None
+
+    F_, G_ = A("f"), A("g")
+    # the xor store
+    store = None
+    for b in fn.blocks:
+        if b["cleanup"]:
+            continue
+        for si, st in enumerate(b["stmts"]):
+            if st["k"] == "assign" and st["p"]["proj"] and st.get("pty") == "u8" and st["rv"]["k"] == "bin" and st["rv"]["op"] == "BitXor":
+                store = (st, (b["id"], si))
+    if not store:
+        ctx.abstain(rid, "no `rem[..] ^= ..` store found in division", where_fn(fn))
+        return
+    st, pt = store
+    idx_local = [e["idx"] for e in st["p"]["proj"] if isinstance(e, dict) and "idx" in e][0]
+    tgt = poly.normalise(fn.canon_local(idx_local, pt), ren)
+    e = fn.canon_rv(st["rv"], pt, 0, None)
+    lvs = [a for a in tgt.atoms() if isinstance(a, tuple) and a[0] == "lv"]
+    if len(lvs) != 2:
+        ctx.abstain(rid, "xor target index is not a sum of two loop variables: %s" % tgt.show(), fn.where(pt))
+        return
+    his = {lv: loops.get(lv[1]) for lv in lvs}
+    jl = [lv for lv in lvs if his[lv] and his[lv][0] == "range0"]
+    il = [lv for lv in lvs if lv not in jl]
+    if len(jl) != 1 or len(il) != 1 or not his[il[0]] or his[il[0]][0] != "range":
+        ctx.abstain(rid, "loop structure of the division not recognised: %s" % str(his)[:200], fn.where(pt))
+        return
+    i, j = A(il[0]), A(jl[0])
+    names = {il[0]: "i", jl[0]: "j"}
+    ctx.check(rid, tgt == i + j, fn.path + "/target", fn.where(pt), fn.path, "xor target", "the step does not update rem[i + j]", expected="i + j",
+              found=tgt.show(names), sample="rem[i + j] ^= ..")
+    jhi = poly.normalise(his[jl[0]][1], ren)
+    ctx.check(rid, jhi == G_, fn.path + "/j-range", fn.where(pt), fn.path, "inner loop", "the inner loop does not run over all generator coefficients (0..len(g))",
+              expected="len(g)", found=jhi.show(), sample="j in 0..len(g)")
+    ilo, ihi = poly.normalise(his[il[0]][1], ren), poly.normalise(his[il[0]][2], ren)
+    start = C(256) - F_ - G_
+    ctx.check(rid, ilo == start and ihi == start + F_, fn.path + "/i-range", fn.where(pt), fn.path, "outer loop",
+              "the outer loop does not run over the dividend positions start .. start+len(f), start = 256 - len(f) - len(g)",
+              expected="%s .. %s" % (start.show(), (start + F_).show()), found="%s .. %s" % (ilo.show(), ihi.show()), sample="i in start..start+len(f)")
+    # right-hand side
+    got = poly.normalise(e, ren)
+    rem_ij = poly.index(A("rem"), i + j)
+    alpha = poly.index(A("LOG"), poly.index(A("rem"), i))
+    term = poly.index(A("EXP"), poly.op("Rem", poly.index(A("gen"), j) + alpha, C(255)))
+    exp1 = poly.op("BitXor", rem_ij, term)
+    exp2 = poly.op("BitXor", term, rem_ij)
+    ctx.check(rid, got in (exp1, exp2), fn.path + "/step", fn.where(pt), fn.path, "xor value",
+              "the step is not rem[i+j] ^ EXP[(g[j] + LOG[rem[i]]) mod 255] with the value->exponent table inside and the exponent->value table outside",
+              expected="rem[i+j] ^ EXP[(gen[j] + LOG[rem[i]]) % 255]", found=_pretty(got, names), sample="rem[i+j] ^= EXP[(gen[j] + LOG[rem[i]]) % 255]")
+    # dividend placement
+    cs = [c for c in fn.calls() if (c.name or "").endswith("::copy_from_slice")]
+    if len(cs) != 1:
+        ctx.abstain(rid, "dividend is not placed by one copy_from_slice", where_fn(fn))
+        return
+    c = cs[0]
+    d = fn.origins(c.args[0], c.point)
+    s = fn.origins(c.args[1], c.point)
+    okp = False
+    found = None
+    if len(d) == 1 and d[0].kind == "call" and len(s) == 1 and s[0].kind == "call":
+        dr = fn.origins(d[0].info.call["args"][1], d[0].point)
+        sr = fn.origins(s[0].info.call["args"][1], s[0].point)
+        if len(dr) == 1 and dr[0].kind == "agg" and len(sr) == 1 and sr[0].kind == "agg":
+            dlo = poly.normalise(fn.canon(dr[0].info.rv["ops"][0], dr[0].point), ren)
+            dhi = poly.normalise(fn.canon(dr[0].info.rv["ops"][1], dr[0].point), ren)
+            srv = sr[0].info.rv
+            if srv.get("path") == "std::ops::RangeTo":
+                slo, shi = C(0), poly.normalise(fn.canon(srv["ops"][0], sr[0].point), ren)
+            else:
+                slo, shi = poly.normalise(fn.canon(srv["ops"][0], sr[0].point), ren), poly.normalise(fn.canon(srv["ops"][1], sr[0].point), ren)
+            found = "rem[%s..%s] = f[%s..%s]" % (dlo.show(), dhi.show(), slo.show(), shi.show())
+            okp = dlo == start and dhi == start + F_ and slo == C(0) and shi == F_ and strip_refs(fn.canon(s[0].info.call["args"][0], s[0].point)) == ("param", 1)
+    ctx.check(rid, okp, fn.path + "/placement", c.where(), fn.path, "dividend placement",
+              "the dividend is not copied whole to rem[start .. start+len(f)]", expected="rem[256-f-g .. 256-g] = f[0..f]", found=found,
+              sample="rem[start..start+len(f)] = f")
+
+
+def _pretty(p, names):
+    s = p.show(names)
+    return s if len(s) < 400 else s[:400] + "..."
